@@ -230,6 +230,8 @@ def compare_lean(c, answers, expect_oracle_sigs):
                 out.append((sig, 'verified checker isVectorStarBasis rejects the implementation output (%s); vector stars %d, '
                                  'sum of stabiliser dimensions %s' % (','.join(bad), nv, starsum), kv))
 
+    osrows = {int(x) for x in c.OSindices}
+
     def cmp(label, model, code, sig=None):
         code = np.asarray(code, dtype=float)
         if model.size != code.size:
@@ -238,6 +240,9 @@ def compare_lean(c, answers, expect_oracle_sigs):
         dev = np.abs(model.reshape(code.shape) - code)
         if dev.max() > 1e-10 * max(1., np.abs(code).max()):
             idx = np.unravel_index(np.argmax(dev), dev.shape)
+            if sig is not None:
+                bad = np.argwhere(dev > 1e-10 * max(1., np.abs(code).max()))
+                sig = sig if all(int(b[0]) in osrows for b in bad) else None
             out.append((sig, 'model %s = %.12g, implementation %.12g at %s' % (label, model.reshape(code.shape)[idx], code[idx], list(map(int, idx))),
                         dict(index=list(map(int, idx)), model=float(model.reshape(code.shape)[idx]), code=float(code[idx]))))
 
@@ -269,7 +274,7 @@ def compare_lean(c, answers, expect_oracle_sigs):
         else:
             cmp(label + ' bias1expansion (with origin states)', kv['bias0'], b1)
             cmp(label + ' rate0expansion (through origin states)', bytype(kv['rate0'], jt, (nv, nv)), exp0)
-            cmp(label + ' rate0escape (through origin states)', bytype(kv['esc0'], jt, (nv,)), esc0, sig='om2:rate0escape:' + tag)
+            cmp(label + ' rate0escape (through origin states)', bytype(kv['esc0'], jt, (nv,)), esc0, sig='om2:rate0escape:' + tag + ':OSvstar')
             cmp(label + ' bias0expansion (with origin states)', bytype(kv['bias0'], jt, (nv,)), b0)
     if a_gf is None:
         pass
